@@ -475,6 +475,18 @@ class CFGBuilder:
             else:
                 binds.append((q.name + sfx, arg))
 
+        # **kwargs parameter: the dict of the call's keywords that no named parameter takes (or the caller's own **dict)
+        named = {q.name for q in params if q.kind in ("pos", "kwonly")}
+        for q in [q for q in params if q.kind == "kwarg"]:
+            extra = [kw for kw in call.keywords if kw.arg is not None and kw.arg not in named]
+            star = [kw.value for kw in call.keywords if kw.arg is None]
+            if star and not extra and len(star) == 1 and isinstance(star[0], ast.Name) and q.name not in stored:
+                alias[q.name] = star[0].id
+            else:
+                d = ast.Dict(keys=[ast.Constant(value=kw.arg) for kw in extra] + [None for _ in star],
+                             values=[kw.value for kw in extra] + list(star))
+                binds.append((q.name + sfx, d))
+
         class _Sub(ast.NodeTransformer):
             def visit_Name(s_, x: ast.Name) -> ast.AST:  # noqa: N805
                 if isinstance(x.ctx, ast.Load) and x.id in subst:
